@@ -169,7 +169,20 @@ def f_c20():
     return 'absent F-C20'
 
 
-ALL = {'F-C10': f_c10, 'F-C14a': f_c14a, 'F-C14b': f_c14b, 'F-C08': f_c08, 'F-C06b': f_c06b,
+def f_c08b():
+    """Only type >= 2 hits, all above MSA + buffer: cropped to an empty frame -> pandas ValueError."""
+    import ampycloud
+    df = _frame([('A', float(t), 9000.0, 2) for t in range(-300, 0, 30)])
+    try:
+        ch = ampycloud.run(df, prms={'MSA': 5000, 'MSA_HIT_BUFFER': 1000})
+    except ampycloud.errors.AmpycloudError as err:
+        return f'absent F-C08b (AmpycloudError: {err})'
+    except Exception as err:  # pylint: disable=broad-except
+        return f'DEFECT F-C08b: {type(err).__name__}: {str(err)[:90]}'
+    return f'absent F-C08b ({ch.metar_msg()})'
+
+
+ALL = {'F-C08b': f_c08b, 'F-C10': f_c10, 'F-C14a': f_c14a, 'F-C14b': f_c14b, 'F-C08': f_c08, 'F-C06b': f_c06b,
        'F-C06a': f_c06a, 'F-C05': f_c05, 'F-C20': f_c20}
 
 if __name__ == '__main__':
